@@ -8,6 +8,9 @@ import (
 	"github.com/spf13/cobra"
 )
 
+// compared tree file of the merge command (own variable, so that its documented default holds)
+var mergeComparedFile string
+
 // mergeCmd represents the merge command
 var mergeCmd = &cobra.Command{
 	Use:   "merge",
@@ -34,7 +37,7 @@ Edges connecting new root with old roots have length of 1.0.
 			io.LogError(err)
 			return
 		}
-		if comptree, err = readTree(intree2file); err != nil {
+		if comptree, err = readTree(mergeComparedFile); err != nil {
 			io.LogError(err)
 			return
 		}
@@ -61,6 +64,6 @@ Edges connecting new root with old roots have length of 1.0.
 func init() {
 	RootCmd.AddCommand(mergeCmd)
 	mergeCmd.PersistentFlags().StringVarP(&intreefile, "reftree", "i", "stdin", "Reference tree input file")
-	mergeCmd.PersistentFlags().StringVarP(&intree2file, "compared", "c", "stdin", "Compared tree input file")
+	mergeCmd.PersistentFlags().StringVarP(&mergeComparedFile, "compared", "c", "stdin", "Compared tree input file")
 	mergeCmd.PersistentFlags().StringVarP(&outtreefile, "output", "o", "stdout", "Merged tree output file")
 }
